@@ -3,18 +3,8 @@ CONSTRAINT TraceConstraint
 POSTCONDITION TraceAccepted
 CHECK_DEADLOCK FALSE
 INVARIANTS
-  C10_ConfigNoCrash_MultiCut
-  C10_ReadBack_NoDangling
-  C10_Eval_StaleSet
-  C10_Eval_CorruptStmt
-  C10_Verdict_DefaultUnset
-  C10_Attrs_ExtRemove
-  C10_StoredUnchanged_LargeAdd
-  C10_ReadBack_CorruptStmt
-  C10_ReadBack_DefaultUnset
-  C10_ReadBack_ApiOrigin
-  C10_ReadBack_ApiCommAct
   C10_ConfigNoCrash
+  C10_ReadBack_NoDangling
   C10_Verdict
   C10_Attrs
   C10_StoredUnchanged
